@@ -179,5 +179,6 @@ def attempts_of(obs):
         mine = [p for p in posts if p["t"] >= t0 and (t1 is None or p["t"] < t1)]
         served = [e.get("served_cert") for e in obs["ca"] if e["kind"] == "req" and e.get("served_cert")
                   and e["t"] >= t0 and (t1 is None or e["t"] < t1)]
-        out.append({"start": t0, "next_start": t1, "posts": mine, "served": served})
+        hooks = [h for h in obs.get("hooks", []) if h["t"] >= t0 and (t1 is None or h["t"] < t1)]
+        out.append({"start": t0, "next_start": t1, "posts": mine, "served": served, "hooks": hooks})
     return out
